@@ -733,6 +733,8 @@ pub struct ExploreStats {
     pub hot_points_seen: u64,
     pub capped: bool,
     pub failed_runs: u64,
+    /// the search stops (reported as capped) once this instant has passed
+    pub deadline: Option<std::time::Instant>,
 }
 
 /// `run(prefix)` executes one schedule: the choices of `prefix` at the first branching points, 0 afterwards.
@@ -748,7 +750,7 @@ pub fn explore(run: &dyn Fn(&[u8]) -> Result<RunOut, String>, check: &dyn Fn(&Ru
 pub fn explore_ordered(run: &dyn Fn(&[u8]) -> Result<RunOut, String>, check: &dyn Fn(&RunOut) -> Option<String>, bound: usize, max_runs: u64, stats: &mut ExploreStats, writes_first: bool) -> Result<Option<(Vec<u8>, String, RunOut)>, String> {
     let mut stack: Vec<Vec<u8>> = vec![Vec::new()];
     while let Some(prefix) = stack.pop() {
-        if stats.runs >= max_runs {
+        if stats.runs >= max_runs || stats.deadline.is_some_and(|d| std::time::Instant::now() > d) {
             stats.capped = true;
             break;
         }
